@@ -13,7 +13,7 @@ EXPLANATION = ('Static rules: L1 serialisation by typing — Observer::next take
                '(no cell is acquired while a guard of the same class or of a class that is ordered after it is held), (b) calls that leave '
                'the library upstream or into user code (subscribe, unsubscribe of a foreign subscription, stored or user closures, polling a '
                'user future) happen under a library lock only at the tabled sites; downstream observer calls only ever descend the pipeline; '
-               'L4 no lost wake-up (same rules as C14.R3/R4); L5 merge_all takes its slot decision and acts on it in one critical section (same rule as C05.F3). Together: no deadlock among library locks for callers that do not re-enter '
+               'L6 no panic from paired cells: where a reader unwraps cell B under the guard of cell A (A non-empty promises B non-empty), every writer empties A before B; L4 no lost wake-up (same rules as C14.R3/R4); L5 merge_all takes its slot decision and acts on it in one critical section (same rule as C05.F3). Together: no deadlock among library locks for callers that do not re-enter '
                'from a callback. Does not decide value-dependent panics, fairness or preemption-level schedules.')
 ASSUMPTIONS = ['callers do not re-enter the same pipeline from inside a callback (the property\'s own proviso)',
                'std::sync::Mutex and RefCell are not re-entrant; guards are released at the MIR drop of the guard local']
@@ -39,6 +39,7 @@ FOREIGN_UNDER_LOCK = {
     ('<scheduler::TaskHandle as Subscription>::unsubscribe', 'unsubscribe'): 'unsubscribes the subscription the task produced',
 }
 CONTROLS = [
+    'L6|<verif_controls::CtlPairedCells>::close|back',
     'L3a|cycle CtlAbBa',
     'L3b|<verif_controls::LockedFlatten as Observer>::next|subscribe',
 ]
@@ -146,6 +147,7 @@ def check(cx):
         for (label, kind), (loc, desc, c) in sorted(foreign.items()):
             if 'verif_controls' in label:
                 res.append(Finding(ID, 'L3b', '%s|%s' % (label, kind), False, 'foreign call under lock %s' % c, loc, [desc]))
+        res += l6(cx)
         return res
     # L1
     tr = F.traits.get('observer::Observer')
@@ -198,9 +200,88 @@ def check(cx):
     # L5: check-then-act atomicity of the flattening state (no lost wake-up of a queued inner)
     from . import c05
     res += c05.f3(cx, ID, 'L5')
+    res += l6(cx)
     # L4
     for f in c14.r3(cx) + c14.r4(cx):
         res.append(Finding(ID, 'L4', f.key, f.ok, f.msg, f.loc, f.witness))
+    return res
+
+
+def _cell_take(n, field=None):
+    """field name if node empties the Option kept directly in the shared cell self.<field> (take / mem::take / = None)"""
+    if n['kind'] == 'call' and n['name'] in ('std::option::Option::take', 'std::mem::take') and n['args']:
+        root, steps = access_path(n['args'][0])
+        if root[0] == 'arg' and root[1] == 1 and len(steps) >= 2 and steps[-1] == '@' and all(not x.startswith(('@', '!', 'as ', '[')) for x in steps[:-1]):
+            return '.'.join(steps[:-1])
+    if n['kind'] == 'assign':
+        root, steps = access_path(n['lhs'])
+        r = strip(n['rhs'])
+        if root[0] == 'arg' and root[1] == 1 and len(steps) >= 2 and steps[-1] == '@' and r[0] == 'agg' and r[2].endswith('Option::None'):
+            return '.'.join(steps[:-1])
+    return None
+
+
+def l6(cx):
+    """paired cells: a reader that unwraps the Option of cell B while holding the guard of cell A relies on
+    'A non-empty => B non-empty'; every writer must therefore empty A before it empties B"""
+    from ..core import explore, witness, interesting_default
+    F = cx.facts
+    res = []
+    deps = {}
+    by_adt = {}
+    for fn in F.fns.values():
+        im = F.impl_of_fn(fn)
+        if im is None:
+            continue
+        tag = roles.impl_tag(cx, im)
+        if cx.control != ('verif_controls' in tag):
+            continue
+        by_adt.setdefault(tag, []).append(fn)
+    for tag, fns in sorted(by_adt.items()):
+        for fn in fns:
+            g = cx.graph(fn['key'], inline=False)
+            unwraps = []
+            for n in g.nodes:
+                if n['kind'] == 'call' and n['name'] in ('std::option::Option::unwrap', 'std::option::Option::expect') and n['args']:
+                    root, steps = access_path(n['args'][0])
+                    if root[0] == 'arg' and root[1] == 1 and len(steps) >= 2 and steps[-1] == '@' and all(not x.startswith(('@', '!', 'as ', '[')) for x in steps[:-1]):
+                        unwraps.append((n, '.'.join(steps[:-1])))
+            if not unwraps:
+                continue
+            held = lock_scopes(g)
+            for n, b in unwraps:
+                for gd in held[n['id']]:
+                    root, steps = access_path(gd[0])
+                    if root[0] == 'arg' and root[1] == 1 and steps and steps[-1] == '@':
+                        a = '.'.join(steps[:-1])
+                        if a != b:
+                            deps.setdefault((tag, a, b), (cx.label(fn), g.loc(n)))
+    for (tag, a, b), (reader, rloc) in sorted(deps.items()):
+        for fn in by_adt[tag]:
+            g = cx.graph(fn['key'])
+            if not any(_cell_take(n) == b for n in g.nodes):
+                continue
+
+            def step(st, n, lab):
+                if st == 'BAD':
+                    return None
+                t = _cell_take(n)
+                if t == a:
+                    return 'a-empty'
+                if t == b and st != 'a-empty':
+                    return 'BAD'
+                return st
+            reached, pred = explore(g, 'start', step)
+            bad = [k for k in reached if k[1] == 'BAD']
+            key = '%s|%s' % (cx.label(fn), b)
+            if bad:
+                res.append(Finding(ID, 'L6', key, False,
+                                   'empties cell `%s` while cell `%s` may still be non-empty: %s unwraps `%s` under the guard of `%s` after seeing it non-empty, so a call that '
+                                   'runs in between panics (and poisons the Mutex for everybody else)' % (b, a, reader, b, a), fn['span'], witness(g, pred, bad[0], interesting_default)))
+            else:
+                res.append(Finding(ID, 'L6', key, True, '`%s` is emptied before `%s` (reader %s relies on %s non-empty => %s non-empty)' % (a, b, reader, a, b), fn['span']))
+    if not cx.control and len(deps) < 5:
+        res.append(Finding(ID, 'L6', 'floor', False, 'expected the observers/chamber pair of the 5 subject types, found %d pairs' % len(deps)))
     return res
 
 
